@@ -56,6 +56,9 @@ func (s *coopSched) runMain(f func()) {
 	main := &thread{id: 0, wake: make(chan struct{}, 1)}
 	s.threads = []*thread{main}
 	s.cur = main
+	if schedTrace {
+		fmt.Printf("\nPATH %v:", s.m.prefix)
+	}
 	defer func() {
 		// release every parked thread
 		s.dead = true
@@ -89,7 +92,11 @@ func (s *coopSched) park(self *thread) {
 }
 
 // reschedule picks the next thread to run. selfBlocked: the caller cannot continue now.
-func (s *coopSched) reschedule(selfBlocked bool) {
+func (s *coopSched) reschedule(selfBlocked bool) { s.rescheduleX(selfBlocked, false) }
+
+// rescheduleX: free = a voluntary yield (verifrt.Yield, runtime.Gosched): switching
+// away does not count against the preemption bound.
+func (s *coopSched) rescheduleX(selfBlocked, free bool) {
 	self := s.cur
 	var cands []*thread
 	if !selfBlocked && s.enabled(self) {
@@ -114,12 +121,12 @@ func (s *coopSched) reschedule(selfBlocked bool) {
 	}
 	next := cands[0]
 	if len(cands) > 1 {
-		if cands[0] == self && s.preemptLeft <= 0 {
+		if cands[0] == self && s.preemptLeft <= 0 && !free {
 			next = self
 		} else {
 			k := s.m.choose(len(cands))
 			next = cands[k]
-			if cands[0] == self && next != self {
+			if cands[0] == self && next != self && !free {
 				s.preemptLeft--
 			}
 		}
@@ -141,6 +148,9 @@ func (s *coopSched) handOver(self, next *thread) {
 // block waits until cond holds.
 func (s *coopSched) block(what string, cond func() bool) {
 	self := s.cur
+	if schedTrace && !cond() {
+		fmt.Printf("  [t%d BLOCK %s]", self.id, what)
+	}
 	for !cond() {
 		self.ready, self.what = cond, what
 		s.reschedule(true)
@@ -148,7 +158,14 @@ func (s *coopSched) block(what string, cond func() bool) {
 	self.ready, self.what = nil, ""
 }
 
-func (s *coopSched) yield(what string) { s.reschedule(false) }
+func (s *coopSched) yield(what string) {
+	if schedTrace {
+		fmt.Printf("  [t%d %s pl=%d]", s.cur.id, what, s.preemptLeft)
+	}
+	s.rescheduleX(false, s.m.h.FreeYields && (what == "Yield" || what == "Gosched"))
+}
+
+var schedTrace = os.Getenv("SYMGO_SCHEDTRACE") != ""
 
 func (s *coopSched) lock(p *value, shared bool) {
 	s.yield("lock")
@@ -214,9 +231,9 @@ func condLocker(p *value) *value {
 func (s *coopSched) condWait(p *value) {
 	self := s.cur
 	l := condLocker(p)
-	s.unlock(l, false)
 	s.condWaiters[p] = append(s.condWaiters[p], self)
 	delete(s.signaled, self)
+	s.unlock(l, false) // unlocking is a scheduling point: the waiter is already enqueued (atomic in the real runtime)
 	s.block("Cond.Wait", func() bool { return s.signaled[self] })
 	delete(s.signaled, self)
 	s.lock(l, false)
